@@ -43,7 +43,11 @@ def gen_case(rng, explicit, snippet_names):
         attrs += ['[f=${1:f1}]', '[g="${2:f2} x ${4:f4}"]', '[h=${0:f0}]', '[m=${3:f3}${3:f3}]', '[n="a ${1:f1}"]']
         texts += ['a ${1:f1} b ${3:f3}', '${0:f0}', '${2:f2}${2:f2}', 'x ${5:f5}\ny ${1:f1}']
     tree = gen_abbr.gen_tree(rng, names=names, p_text=0.3, texts=texts, attrs=attrs, p_attr=0.45, p_class=0.2, p_id=0.1, p_group=0.12, p_rep=0.15,
-                             max_rep=3, classes=['c1', 'c2'], ids=['i1', 'i2'], max_depth=rng.choice([2, 3, 4]), p_selfclose=0.0)
+                             max_rep=3, classes=['c1', 'c2'], ids=['i1', 'i2'], p_selfclose=0.0, **(dict(max_depth=rng.choice([2, 3, 4])) if rng.random() < 0.88 else
+                                dict(max_depth=rng.choice([8, 10, 13]), max_children=rng.choice([1, 2]), p_children=0.92)))
+
+    if gen_abbr.depth_of(tree) > 6:
+        gen_abbr.thin_reps(tree, rng)
 
     def fix(nodes):
         for n in nodes:
